@@ -586,6 +586,46 @@ def r9(k: Kit) -> None:
                       g.describe_path(w) if w else None)
 
 
+def r11(k: Kit) -> None:
+    """Every exchange hashes its own KEXINIT payloads."""
+    rep = k.rep
+    rep.rule('C11.R11', 'get_hash_prefix is a pure function of the four '
+             'current fields (client / server version, client / server '
+             'KEXINIT): it stores nothing on the connection and every return '
+             'value depends on all four - a prefix remembered from the first '
+             'exchange would make every re-exchange sign and derive keys '
+             'from stale KEXINIT payloads')
+    fi = k.func(CONN + 'get_hash_prefix')
+    g = k.cfg(fi)
+    rd = k.rd(fi)
+    from ..flow import depends_on
+    stores = [x for x in ast.walk(fi.node) if isinstance(
+        x, (ast.Assign, ast.AugAssign, ast.AnnAssign)) and any(
+            (dotted(t) or '').startswith('self.')
+            for t in (x.targets if isinstance(x, ast.Assign)
+                      else [x.target]))]
+    rep.check(not stores, 'C11.R11', key(fi, 'nothing cached'),
+              'no field of the connection is written',
+              f'`{norm(stores[0]) if stores else ""}`: the hash prefix is '
+              'kept on the connection', fi.loc(fi.node))
+    want = {'self._client_version', 'self._server_version',
+            'self._client_kexinit', 'self._server_kexinit'}
+    rets = [n for n in g.nodes if isinstance(n.ast, ast.Return) and
+            n.ast.value is not None]
+    rep.floor('C11.R11', 'returns of get_hash_prefix', len(rets), 1)
+    for r in rets:
+        deps = depends_on(g, rd, r.id, r.ast.value)
+        direct = {dotted(x) for x in ast.walk(r.ast.value)
+                  if isinstance(x, ast.Attribute)}
+        rep.check(want <= (deps | direct) and not (
+            (direct - want) & {d for d in direct if d and
+                               d.startswith('self._') and d not in want}),
+            'C11.R11', key(fi, 'prefix from the current payloads'),
+            'V_C, V_S, I_C, I_S of this exchange',
+            f'`{norm(r.ast.value)[:60]}` is not built from the four '
+            'current fields', k.loc(fi, r))
+
+
 def run(idx, rep, tier):
     k = Kit(idx, rep)
     rep.assumptions += NOT_DECIDED
@@ -599,6 +639,7 @@ def run(idx, rep, tier):
     r7(k)
     r8(k)
     r9(k)
+    r11(k)
     # R5: the keys taken into use after a re-exchange are the RFC 4253 §7.2
     # keys: = C02.R2 (compute_key hashes K, H, letter, session id in that
     # order; on the first exchange H == session id hides a swap)
